@@ -7,7 +7,7 @@ import leafgen as lg
 import c01
 
 ID = 'C14'
-GEN = ['kernels']
+GEN = ['kernels', 'classes']
 PROPS = 'Props/C14.v'
 MODEL_VO = ['Model/Dev.v']
 CASE_TYPE = 'leafdev Q * list Q * list Q * Q * list (list Q) * bool'
